@@ -693,3 +693,38 @@ package validate
 //@   effects validation
 //@   ensures[C04,C11] redeemed(b) == old(b.Options.recycleValidators)
 //@   ensures[C04] res == nil || okResult(res)
+
+// constructors of leaf validators: the object handed out is live and taken from the pool (or fresh); every field is
+// re-initialised (init-complete obligations are generated mechanically from the struct definition)
+//@ func newTypeValidator
+//@   effects validation
+//@   ensures[C04,C06] result != nil && !redeemed(result) && fromPool(result) && result.Options != nil
+//@   ensures[C04] implies(opts != nil, result.Options == opts)
+//@ func newStringValidator
+//@   effects validation
+//@   ensures[C04,C06] result != nil && !redeemed(result) && fromPool(result) && result.Options != nil
+//@   ensures[C04] implies(opts != nil, result.Options == opts)
+//@ func newFormatValidator
+//@   effects validation
+//@   ensures[C04,C06] result != nil && !redeemed(result) && fromPool(result) && result.Options != nil
+//@   ensures[C04] implies(opts != nil, result.Options == opts)
+//@ func newNumberValidator
+//@   effects validation
+//@   ensures[C04,C06] result != nil && !redeemed(result) && fromPool(result) && result.Options != nil
+//@   ensures[C04] implies(opts != nil, result.Options == opts)
+//@ func newBasicCommonValidator
+//@   effects validation
+//@   ensures[C04,C06] result != nil && !redeemed(result) && fromPool(result) && result.Options != nil
+//@   ensures[C04] implies(opts != nil, result.Options == opts)
+//@ func newBasicSliceValidator
+//@   effects validation
+//@   ensures[C04,C06] result != nil && !redeemed(result) && fromPool(result) && result.Options != nil
+//@   ensures[C04] implies(opts != nil, result.Options == opts)
+//@ func newSliceValidator
+//@   effects validation
+//@   ensures[C04,C06] result != nil && !redeemed(result) && fromPool(result) && result.Options != nil
+//@   ensures[C04] implies(opts != nil, result.Options == opts)
+//@ func newObjectValidator
+//@   effects validation
+//@   ensures[C04,C06] result != nil && !redeemed(result) && fromPool(result) && result.Options != nil
+//@   ensures[C04] implies(opts != nil, result.Options == opts)
